@@ -477,3 +477,477 @@ func (c *Ctx) ruleSitesCTOR() {
 	}
 	c.count("report sites", len(sites))
 }
+
+// ================================================================================================
+// C03 — testonly
+
+// descHas reports whether the deep descriptor of v contains all the substrings.
+func (c *Ctx) descHas(v ssa.Value, subs ...string) bool {
+	d := c.P.DescDeep(v)
+	for _, s := range subs {
+		if !strings.Contains(d, s) {
+			return false
+		}
+	}
+	return true
+}
+
+// isIgnoreGate: -IgnoreSet.Contains(code, pos) on the ignore set of the IgnoreReader result.
+// codeOK / posOK judge the code and position arguments.
+func (c *Ctx) ignoreGatePred(codeOK, posOK func(v ssa.Value) bool, detail *string) func(l Lit) bool {
+	P := c.P
+	return func(l Lit) bool {
+		call := P.litCallTo(l, fnIgnoreContain)
+		if call == nil || l.Pos {
+			return false
+		}
+		if !c.isPassIgnoreSet(call.Call.Args[0]) {
+			*detail = "ignore gate consults a set that is not ResultOf[IgnoreReader].IgnoreSet: " + short(P.DescDeep(call.Call.Args[0]))
+			return false
+		}
+		if !codeOK(call.Call.Args[1]) {
+			*detail = "ignore gate looks up a code that is not the code this site reports: " + short(P.DescDeep(call.Call.Args[1]))
+			return false
+		}
+		if !posOK(call.Call.Args[2]) {
+			*detail = "ignore gate looks up a position that is not the position this site reports: " + short(P.DescDeep(call.Call.Args[2]))
+			return false
+		}
+		return true
+	}
+}
+
+func (c *Ctx) ruleSitesTONL() {
+	P := c.P
+	rule := "GUARD-SIG(TONL)"
+	sites := c.sitesOf("testonly")
+	perCode := map[string]int{}
+	for _, s := range sites {
+		si := c.buildSiteInfo(s)
+		perCode[s.Code]++
+		c.checkFlow(si, rule)
+		var detail string
+
+		// ---- not in a _test.go file, whatever the configuration (C03, C14)
+		tf := si.take("test-file", func(l Lit) bool {
+			call := P.litCallTo(l, "strings.HasSuffix")
+			if call == nil || l.Pos {
+				return false
+			}
+			if cs, ok := call.Call.Args[1].(*ssa.Const); !ok || cs.Value == nil || cs.Value.ExactString() != `"_test.go"` {
+				return false
+			}
+			return c.descHas(call.Call.Args[0], "go/token.Position.Filename", "(*go/token.FileSet).Position", "(*go/ast.File).Pos; iterelem0(call((*config.Config).FilterFiles")
+		})
+		si.take("test-file", func(l Lit) bool {
+			call := litCall(l)
+			return call != nil && !l.Pos && call.Call.StaticCallee() != nil && FuncName(call.Call.StaticCallee()) == "testonly.isTestFile"
+		})
+		c.require(si, rule, "NOT-TEST-FILE(-)", tf, "no guard !strings.HasSuffix(<name of the walked file>, \"_test.go\") on the path to this report: uses in test files would be reported")
+
+		// ---- ignore gate at detection time, on this very violation
+		detail = "no guard !ignoreSet.Contains(v.Code, v.Pos) between the detection and the report (the reporter of this package is created without an ignore set)"
+		vt := "testonly.TestOnlyViolation"
+		gate := si.take("ignore-gate", c.ignoreGatePred(
+			func(v ssa.Value) bool {
+				return P.RootsAll(v, func(r ssa.Value) bool { return fieldLoad(r, vt, "Code") != nil })
+			},
+			func(v ssa.Value) bool {
+				return P.RootsAll(v, func(r ssa.Value) bool { return fieldLoad(r, vt, "Pos") != nil })
+			}, &detail))
+		c.require(si, rule, "IGNORE-GATE(-)", gate, detail)
+
+		// ---- membership
+		kinds := c.astKinds(si)
+		_ = kinds
+		detail = ""
+		switch s.Code {
+		case "TONL02":
+			detail = "no positive testOnlyFuncs.Match(pkg, name, name) on an index built by BuildTestOnlyFuncsIndex"
+			var viaPkgName, direct bool
+			mem := si.take("funcs-index", c.indexCallPred(fnMatch, "indexing.BuildTestOnlyFuncsIndex", true, func(call *ssa.Call) (bool, string) {
+				a := call.Call.Args
+				if P.Desc(a[2]) != P.Desc(a[3]) {
+					return false, "function index is keyed (name, name) but queried with two different names"
+				}
+				if !c.rootsAre(a[2], func(r ssa.Value) bool { return fieldLoad(r, "go/ast.Ident", "Name") != nil }) {
+					return false, "queried function name is not the called identifier's name"
+				}
+				if P.isPassPkgCall(a[1], "Path") {
+					direct = true
+					return true, ""
+				}
+				if c.rootsAre(a[1], func(r ssa.Value) bool {
+					pc := P.CallTo(r, "(*go/types.Package).Path")
+					return pc != nil && P.RootsAllDeep(pc.Call.Args[0], func(q ssa.Value) bool { return P.CallTo(q, "(*go/types.PkgName).Imported") != nil })
+				}) {
+					viaPkgName = true
+					return true, ""
+				}
+				return false, "package argument is neither pass.Pkg.Path() nor <PkgName>.Imported().Path(): " + short(P.DescDeep(a[1]))
+			}, &detail))
+			c.require(si, rule, "FUNCS-INDEX(+)", mem, detail)
+			if direct {
+				c.dispatch(si, rule, []string{"CallExpr<node>", "Ident<CallExpr.Fun>"})
+				// NAMEID: the identifier resolves to a package-level function of this package
+				nid := si.take("callee-object", func(l Lit) bool { return l.Pos && c.isPkgLevelFuncTest(l) })
+				c.require(si, rule, "CALLEE-BY-OBJECT(+)", nid, "direct call is matched by the spelling of the identifier only (no TypesInfo.Uses[ident].(*types.Func) at package scope): a local variable or parameter sharing the name is reported")
+			} else if viaPkgName {
+				c.dispatch(si, rule, []string{"CallExpr<node>", "SelectorExpr<CallExpr.Fun>", "Ident<SelectorExpr.X>"})
+				pn := si.take("pkgname", func(l Lit) bool {
+					x, t, _ := typeAssertOK(l)
+					return x != nil && l.Pos && typeStr(t) == "*go/types.PkgName"
+				})
+				c.require(si, rule, "QUALIFIER-IS-PACKAGE(+)", pn, "qualified call: the qualifier must resolve to a *types.PkgName")
+			}
+		case "TONL03":
+			detail = "no positive testOnlyMethods.Match(pkg(T), method, name(T)) on an index built by BuildTestOnlyMethodsIndex"
+			mem := si.take("methods-index", c.indexCallPred(fnMatch, "indexing.BuildTestOnlyMethodsIndex", true, func(call *ssa.Call) (bool, string) {
+				a := call.Call.Args
+				if ok, why := c.typeKeyArgs(a[1], a[3]); !ok {
+					return false, why
+				}
+				if !c.rootsAre(a[2], func(r ssa.Value) bool {
+					id := fieldLoad(r, "go/ast.Ident", "Name")
+					return id != nil && P.RootsAllDeep(id, func(b ssa.Value) bool { return fieldLoad(b, "go/ast.SelectorExpr", "Sel") != nil })
+				}) {
+					return false, "method name is not selector.Sel.Name"
+				}
+				return true, ""
+			}, &detail))
+			c.require(si, rule, "METHODS-INDEX(+)", mem, detail)
+			c.dispatch(si, rule, []string{"CallExpr<node>", "SelectorExpr<CallExpr.Fun>"})
+		case "TONL01":
+			c.tonl01Dispatch(si, rule)
+			detail = "no positive testOnlyTypes.Contains(pkg(T), name(T)) on an index built by BuildTestOnlyTypesIndex"
+			mem := si.take("types-index", c.indexCallPred(fnContains, "indexing.BuildTestOnlyTypesIndex", true, func(call *ssa.Call) (bool, string) {
+				return c.typeKeyArgs(call.Call.Args[1], call.Call.Args[2])
+			}, &detail))
+			c.require(si, rule, "TYPES-INDEX(+)", mem, detail)
+			// once per file and type: dedup keyed by package path AND type name
+			dd := si.take("dedup", func(l Lit) bool {
+				if l.Kind != "cond" || l.Pos || l.Val == nil {
+					return false
+				}
+				lk, ok := l.Val.(*ssa.Lookup)
+				if !ok {
+					return false
+				}
+				_, callees := P.derives(lk.Index, func(ssa.Value) bool { return false }, 14)
+				if !hasCallee(callees, "(*go/types.Package).Path") || !hasCallee(callees, ").Name") {
+					detail = "TONL01 dedup key does not contain both the package path and the type name: a same-named @testonly type of another package is never reported"
+					return false
+				}
+				return true
+			})
+			if len(dd) == 0 && !strings.HasPrefix(detail, "TONL01 dedup") {
+				detail = "no once-per-file dedup guard (!reportedTypes[key]) on every TONL01 path"
+			}
+			c.require(si, rule, "DEDUP(-)", dd, detail)
+		}
+		// the method path excludes package qualifiers; other negative pkg-name tests are benign
+		si.take("not-pkgname", func(l Lit) bool {
+			isPN := func(q Lit) bool {
+				x, t, _ := typeAssertOK(q)
+				return x != nil && typeStr(t) == "*go/types.PkgName"
+			}
+			if isPN(l) {
+				return true
+			}
+			if l.Kind == "and" && !l.Pos {
+				for _, sl := range l.Subs {
+					x, t, _ := typeAssertOK(sl)
+					isAst := x != nil && strings.HasPrefix(typeStr(t), "*go/ast.")
+					if !isPN(sl) && !nilCheck(sl) && !isAst {
+						return false
+					}
+				}
+				return true
+			}
+			return false
+		})
+		c.checkSitePosTONL(si, rule)
+		c.finishSite(si, rule)
+	}
+	for _, code := range []string{"TONL01", "TONL02", "TONL03"} {
+		c.floor("report sites with code "+code, perCode[code], 1)
+	}
+	c.count("report sites", len(sites))
+}
+
+// isPkgLevelFuncTest: literal (direct or a helper call) that implies TypesInfo.Uses[ident] is a *types.Func
+// declared at the package scope of pass.Pkg.
+func (c *Ctx) isPkgLevelFuncTest(l Lit) bool {
+	P := c.P
+	usesFunc := func(x Lit) bool {
+		v, t, _ := typeAssertOK(x)
+		if v == nil || !x.Pos || typeStr(t) != "*go/types.Func" {
+			return false
+		}
+		return P.RootsAllDeep(v, func(r ssa.Value) bool {
+			lk, ok := r.(*ssa.Lookup)
+			return ok && P.RootsAllDeep(lk.X, func(m ssa.Value) bool { return fieldLoad(m, "go/types.Info", "Uses") != nil })
+		})
+	}
+	if usesFunc(l) {
+		return true
+	}
+	call := litCall(l)
+	if call == nil || call.Call.StaticCallee() == nil || !P.IsProductFunc(call.Call.StaticCallee()) {
+		return false
+	}
+	sum := P.BoolSummary(call.Call.StaticCallee())
+	if !sum.ok {
+		return false
+	}
+	saw := false
+	for _, r := range sum.returns {
+		if !r.mayTrue {
+			continue
+		}
+		lits := newLitSet(r.guards)
+		if _, isC := constBool(r.val); !isC {
+			lits = lits.union(newLitSet(literals(P.condFormula(r.val, 0), true)))
+		}
+		okR := false
+		degenerate := false
+		for _, x := range lits {
+			if usesFunc(x) {
+				okR = true
+			}
+			if nilCheck(x) && x.Pos {
+				degenerate = true // e.g. TypesInfo == nil (hand-built passes in unit tests)
+			}
+		}
+		if okR {
+			saw = true
+		} else if !degenerate {
+			return false
+		}
+	}
+	return saw
+}
+
+// checkSitePosTONL: positions of TONL sites: call.Pos(), node.Pos() of the visited node (also through the
+// `pos` parameter of findTypeUsageViolation).
+func (c *Ctx) checkSitePosTONL(si *siteInfo, rule string) { c.checkSitePos(si, rule) }
+
+// ================================================================================================
+// C04 — packageonly
+
+func (c *Ctx) ruleSitesPKGO() {
+	P := c.P
+	rule := "GUARD-SIG(PKGO)"
+	sites := c.sitesOf("packageonly")
+	perCode := map[string]int{}
+	type fam struct{ hasAny, hasPkg string; nArgs int }
+	fams := map[string]fam{
+		"PKGO01": {"(*util.AttachmentsMap).HasAnyTypeAttachments", "(*util.AttachmentsMap).HasPkgTypeAttachment", 2},
+		"PKGO02": {"(*util.AttachmentsMap).HasAnyFunctionAttachments", "(*util.AttachmentsMap).HasPkgFunctionAttachment", 2},
+		"PKGO03": {"(*util.AttachmentsMap).HasAnyMethodAttachments", "(*util.AttachmentsMap).HasPkgTypeMethodAttachment", 3},
+	}
+	var atomSets []string
+	for _, s := range sites {
+		si := c.buildSiteInfo(s)
+		perCode[s.Code]++
+		c.checkFlow(si, rule)
+		f, ok := fams[s.Code]
+		if !ok {
+			c.fail(rule+"/SITE-CODE", si.Name, P.Pos(s.Alloc.Pos()), "packageonly report site with unexpected code "+s.Code)
+			continue
+		}
+		var detail string
+		var keyArgs []string
+		detail = "no positive " + f.hasAny + " on an index built by BuildPackageOnlyIndex"
+		mem := si.take("has-any", c.indexCallPred(f.hasAny, "indexing.BuildPackageOnlyIndex", true, func(call *ssa.Call) (bool, string) {
+			for _, a := range call.Call.Args[1:] {
+				keyArgs = append(keyArgs, P.Desc(a))
+			}
+			return true, ""
+		}, &detail))
+		c.require(si, rule, "ANNOTATED(+)", mem, detail)
+
+		// declaring package itself is always allowed
+		same := si.take("other-package", func(l Lit) bool {
+			if l.Kind != "eq" || l.Pos {
+				return false
+			}
+			return (P.isPassPkgCall(l.X, "Path") && !P.isPassPkgCall(l.Y, "Path")) || (P.isPassPkgCall(l.Y, "Path") && !P.isPassPkgCall(l.X, "Path")) ||
+				(P.isPassPkgCall(l.X, "Path") && P.isPassPkgCall(l.Y, "Path") && strings.Contains(P.Desc(l.X)+P.Desc(l.Y), "|"))
+		})
+		c.require(si, rule, "OTHER-PACKAGE(-eq)", same, "no guard pkg(D) != pass.Pkg.Path(): references from the declaring package itself would be reported")
+
+		// allowed iff path or name attached: both queries must be false, on the same item key
+		for _, q := range []struct{ what, method string }{{"ALLOWED-BY-PATH(-)", "Path"}, {"ALLOWED-BY-NAME(-)", "Name"}} {
+			detail = fmt.Sprintf("no negative %s(item, pass.Pkg.%s()) on the path to the report", f.hasPkg, q.method)
+			lits := si.take("allowed-"+q.method, c.indexCallPred(f.hasPkg, "indexing.BuildPackageOnlyIndex", false, func(call *ssa.Call) (bool, string) {
+				a := call.Call.Args
+				last := a[len(a)-1]
+				if !P.isPassPkgCall(last, q.method) {
+					return false, fmt.Sprintf("%s: no query whose last argument is pass.Pkg.%s() (found %s)", f.hasPkg, q.method, short(P.DescDeep(last)))
+				}
+				for i, x := range a[1 : len(a)-1] {
+					if i < len(keyArgs) && P.Desc(x) != keyArgs[i] {
+						return false, "allow-list query uses a different item key than the membership test"
+					}
+				}
+				return true, ""
+			}, &detail))
+			c.require(si, rule, q.what, lits, detail)
+		}
+
+		// ignore gate at detection time: own code constant, own position
+		detail = "no guard !ignoreSet.Contains(<code of this site>, <pos of this site>) before the report (the reporter of this package is created without an ignore set)"
+		gate := si.take("ignore-gate", c.ignoreGatePred(
+			func(v ssa.Value) bool { return constString(firstRoot(P, v)) == s.Code },
+			func(v ssa.Value) bool { return s.PosVal != nil && P.Desc(v) == P.Desc(s.PosVal) }, &detail))
+		c.require(si, rule, "IGNORE-GATE(-)", gate, detail)
+
+		if s.Code == "PKGO01" {
+			detail = ""
+			dd := si.take("dedup", func(l Lit) bool {
+				if l.Kind != "cond" || l.Pos || l.Val == nil {
+					return false
+				}
+				lk, ok := l.Val.(*ssa.Lookup)
+				if !ok {
+					return false
+				}
+				d := P.Desc(lk.Index)
+				for _, k := range keyArgs {
+					if !strings.Contains(d, k) {
+						detail = "PKGO01 dedup key does not contain both the package path and the type name"
+						return false
+					}
+				}
+				return true
+			})
+			if detail == "" {
+				detail = "no once-per-file dedup guard on the PKGO01 path"
+			}
+			c.require(si, rule, "DEDUP(-)", dd, detail)
+		}
+		// per-path dispatch: object kind and reference kind
+		c.pkgoDispatch(si, rule)
+		c.checkSitePos(si, rule)
+		c.finishSite(si, rule)
+		var used []string
+		for _, r := range si.used {
+			used = append(used, r)
+		}
+		sort.Strings(used)
+		atomSets = append(atomSets, strings.Join(dedupStrings(used), ","))
+	}
+	for _, code := range []string{"PKGO01", "PKGO02", "PKGO03"} {
+		c.floor("report sites with code "+code, perCode[code], 1)
+	}
+	c.count("report sites", len(sites))
+}
+
+func dedupStrings(in []string) []string {
+	var out []string
+	for i, s := range in {
+		if i == 0 || s != in[i-1] {
+			out = append(out, s)
+		}
+	}
+	return out
+}
+
+// pkgoDispatch: on every call path the site is reached for (a) a SelectorExpr or an Ident node, resolved with
+// TypesInfo.ObjectOf, (b) an object of the kind the code names: TypeName (PKGO01), Func without receiver
+// (PKGO02), Func with receiver (PKGO03). Both reference kinds must be present.
+func (c *Ctx) pkgoDispatch(si *siteInfo, rule string) {
+	P := c.P
+	where := P.Pos(si.S.Alloc.Pos())
+	paths := P.GuardPaths(si.S.Alloc)
+	seenKinds := map[string]bool{}
+	okAll := true
+	for _, path := range paths {
+		var nodeKind, objKind string
+		recvNonNil, recvNilOrCompound := false, false
+		for _, l := range path {
+			if x, t, _ := typeAssertOK(l); x != nil && l.Pos {
+				ts := typeStr(t)
+				if strings.HasPrefix(ts, "*go/ast.") && c.roleOf(firstRoot(P, x), 0) == "node" {
+					nodeKind = strings.TrimPrefix(ts, "*go/ast.")
+				}
+				if ts == "*go/types.TypeName" || ts == "*go/types.Func" {
+					if P.RootsAllDeep(x, func(r ssa.Value) bool { return P.CallTo(r, "(*go/types.Info).ObjectOf") != nil }) {
+						objKind = strings.TrimPrefix(ts, "*go/types.")
+					}
+				}
+			}
+			if v := nilCheckedValue(l); v != nil && P.RootsAny(v, func(r ssa.Value) bool { return P.CallTo(r, "(*go/types.Signature).Recv") != nil }) {
+				if !l.Pos {
+					recvNonNil = true
+				} else {
+					recvNilOrCompound = true
+				}
+			}
+			if l.Kind == "and" && !l.Pos {
+				for _, sl := range l.Subs {
+					if v := nilCheckedValue(sl); v != nil && P.RootsAny(v, func(r ssa.Value) bool { return P.CallTo(r, "(*go/types.Signature).Recv") != nil }) {
+						recvNilOrCompound = true
+					}
+				}
+			}
+		}
+		want := map[string]string{"PKGO01": "TypeName", "PKGO02": "Func", "PKGO03": "Func"}[si.S.Code]
+		ok := (nodeKind == "SelectorExpr" || nodeKind == "Ident") && objKind == want
+		if si.S.Code == "PKGO03" && !recvNonNil {
+			ok = false
+		}
+		if si.S.Code == "PKGO02" && !recvNilOrCompound {
+			ok = false
+		}
+		if !ok {
+			okAll = false
+			c.fail(rule+"/DISPATCH", si.Name, where, fmt.Sprintf("a call path reaches this site for node kind %q / object kind %q (method=%v): %s requires a SelectorExpr or Ident resolving to a %s", nodeKind, objKind, recvNonNil, si.S.Code, want))
+		}
+		seenKinds[nodeKind] = true
+	}
+	if okAll {
+		if seenKinds["SelectorExpr"] && seenKinds["Ident"] {
+			c.ok(rule+"/DISPATCH", si.Name, where, fmt.Sprintf("%d call paths: SelectorExpr and Ident references, object kind per code", len(paths)))
+		} else {
+			c.fail(rule+"/DISPATCH", si.Name, where, "site is not reached for both reference kinds (pkg.Item selector and plain identifier)")
+		}
+	}
+	si.take("dispatch", func(l Lit) bool {
+		x, t, _ := typeAssertOK(l)
+		return x != nil && (strings.HasPrefix(typeStr(t), "*go/ast.") || strings.HasPrefix(typeStr(t), "*go/types."))
+	})
+}
+
+// tonl01Dispatch: per call path the TONL01 sites are reached for exactly the node kinds the statement lists:
+// composite literal; typed variable declaration (ValueSpec) and struct field / parameter / result (Field).
+func (c *Ctx) tonl01Dispatch(si *siteInfo, rule string) {
+	P := c.P
+	where := P.Pos(si.S.Alloc.Pos())
+	kinds := map[string]bool{}
+	for _, path := range P.GuardPaths(si.S.Alloc) {
+		k := "?"
+		for _, l := range path {
+			if x, t, _ := typeAssertOK(l); x != nil && l.Pos && strings.HasPrefix(typeStr(t), "*go/ast.") && c.roleOf(firstRoot(P, x), 0) == "node" {
+				k = strings.TrimPrefix(typeStr(t), "*go/ast.")
+			}
+		}
+		kinds[k] = true
+	}
+	var ks []string
+	for k := range kinds {
+		ks = append(ks, k)
+	}
+	sort.Strings(ks)
+	got := strings.Join(ks, ",")
+	si.take("dispatch", func(l Lit) bool {
+		x, t, _ := typeAssertOK(l)
+		return x != nil && strings.HasPrefix(typeStr(t), "*go/ast.")
+	})
+	if got == "CompositeLit" || got == "Field,ValueSpec" {
+		c.ok(rule+"/DISPATCH", si.Name, where, "reached for node kinds "+got)
+	} else {
+		c.fail(rule+"/DISPATCH", si.Name, where, "TONL01 site is reached for node kinds ["+got+"]; the property lists composite literals, typed variable declarations (ValueSpec) and fields/parameters/results (Field)")
+	}
+}
